@@ -542,41 +542,3 @@ func runRabinJob(c *vf.Check, r rcfg) {
 		}
 	}
 }
-
-// DebugRabin prints the completion table (development aid).
-func DebugRabin() {
-	for _, tg := range []string{"", "+reveals-own-share", "+reveals-bogus-share"} {
-		r := rcfg{n: 4, t: 3, fault: fault{"secret-commits-wrong-for-one" + tg, 0, 2}, permNode: -1}
-		o := runRabin(r)
-		s := ""
-		for _, nd := range o.nodes {
-			if nd.faulty {
-				s += " [faulty]"
-			} else if nd.key != nil {
-				e, _ := nd.key.Commits[0].MarshalBinary()
-				s += fmt.Sprintf(" ok(QUAL %v key %x)", nd.qual, e[:4])
-			} else {
-				s += fmt.Sprintf(" ERR(QUAL %v: %v)", nd.qual, nd.err)
-			}
-		}
-		fmt.Printf("%s =>%s\n", r, s)
-	}
-	for _, t := range []int{2, 3} {
-		fs := []fault{{"none", -1, 0}, {"absent", 0, 0}, {"bad-secret-commits", 0, 0}, {"secret-commits-wrong-for-one", 0, 1}, {"secret-commits-wrong-for-one+reveals-own-share", 0, 1}, {"secret-commits-wrong-for-one+reveals-bogus-share", 0, 1}, {"bad-share", 0, 1}, {"bad-share+no-justification", 0, 1}, {"false-complaint", 0, 1}, {"false-complaint", 2, 0}}
-		for _, f := range fs {
-			r := rcfg{n: 3, t: t, fault: f, permNode: -1}
-			o := runRabin(r)
-			s := ""
-			for _, nd := range o.nodes {
-				if nd.faulty {
-					s += " [faulty]"
-				} else if nd.key != nil {
-					s += fmt.Sprintf(" ok(QUAL %v)", nd.qual)
-				} else {
-					s += fmt.Sprintf(" ERR(QUAL %v: %v)", nd.qual, nd.err)
-				}
-			}
-			fmt.Printf("%s =>%s\n", r, s)
-		}
-	}
-}
